@@ -41,6 +41,9 @@ ASSUMPTIONS = [
     'and is outside the written references',
     'Python tokenize is modelled by the token list (diffed on every case); sheet names are ASCII without quote, '
     'backslash, colon or exclamation mark',
+    'under a reference operator / ROW / COLUMN the code rewrites _R_ / _C_ textually, also inside the address literal: '
+    '`written` requires the address text to be a fixed point of that replacement (sheet names without _R_ / _C_); '
+    'with such a sheet name declared precedents and reads are both rewritten to the same other sheet',
     'the re-parse of a printed address (str(x & y) handed to _R_) is the C11 round trip, not re-proved here',
     'library functions other than ROW/COLUMN receive values, never address objects, in written formulas '
     '(refs_wrapper would resolve an address argument through _C_/_R_; validated by the trace diff)',
